@@ -44,7 +44,6 @@ deriving Repr, DecidableEq
 inductive Err where
   | value | key | index | attr | fuel
   | user        -- the function of a Computed raised on its own (C17; any exception that is not one of the above)
-  | noneVal     -- not an exception: a Computable whose evaluation failed earlier is read and yields `None`
 deriving Repr, DecidableEq, Inhabited
 
 structure Reg (H : Type) where
